@@ -721,6 +721,36 @@ struct SVW {
         case 4: // substr
             (void)v.substr(bad ? beyond(n + 1, a) : a % (n + 1), a % 3);
             return true;
+        case 6: { // valid boundary calls of members WITHOUT a catalogued precondition: pos == size(), empty needles
+            if (bad) { return false; }
+            etl::string_view const empty{};
+            etl::string_view const other("kk", 2);
+            auto const pos = a % 2 == 0 ? n : a % (n + 1);
+            (void)v.compare(pos, a % 4, other);
+            (void)v.compare(pos, a % 4, other, 2, 0);
+            (void)v.compare(pos, a % 4, "kk");
+            (void)v.compare(pos, a % 4, "kk", 1);
+            (void)v.compare(pos, etl::string_view::npos, empty);
+            (void)v.starts_with(empty);
+            (void)v.ends_with(empty);
+            (void)v.ends_with("");
+            (void)v.starts_with("");
+            (void)v.ends_with(other);
+            (void)v.contains(empty);
+            (void)v.find(other, pos);
+            (void)v.find(empty, pos);
+            (void)v.rfind(other, pos);
+            (void)v.rfind(empty, n);
+            (void)v.find_first_of(other, pos);
+            (void)v.find_last_of(empty, pos);
+            (void)v.find_first_not_of('k', pos);
+            (void)v.find_last_not_of('k', pos);
+            (void)v.substr(n);
+            (void)v.substr(n, 5);
+            (void)(v == other);
+            (void)(v < empty);
+            return true;
+        }
         default: // copy
             (void)v.copy(dest, a % 5, bad ? beyond(n + 1, a) : a % (n + 1));
             return true;
@@ -1236,6 +1266,7 @@ Entry const catalogue[] = {
     Entry{"string_view::remove_suffix", "basic_string_view.hpp", 4, &SVW::f<3>},
     Entry{"string_view::substr", "basic_string_view.hpp", 4, &SVW::f<4>},
     Entry{"string_view::copy", "basic_string_view.hpp", 4, &SVW::f<5>},
+    Entry{"string_view compare/search/starts_with/ends_with at pos == size() and with empty needles (valid only)", "basic_string_view.hpp", 4, &SVW::f<6>},
     Entry{"span::operator[]", "span.hpp", 4, &SPN::f<0>},
     Entry{"span::front/back", "span.hpp", 4, &SPN::f<1>},
     Entry{"span::first", "span.hpp", 4, &SPN::f<2>},
